@@ -147,7 +147,7 @@ def classify(kind, dep, ncols, pkts):
             if b == b"\x03" and p[:4] == b"\x03def":
                 out.append("cd")
                 seen_cd += 1
-            elif b == b"\xfe" and len(p) < 9:
+            elif b == b"\xfe" and (dep or len(p) < 9):
                 st = (parse_ok(p) if dep else parse_eof(p))["status"]
                 fl = st & 0xC0
                 if not dep and fl == 0 and kind != "fieldlist" and not (kind == "prepare" and False):
@@ -163,7 +163,8 @@ def classify(kind, dep, ncols, pkts):
                 state = "rows"
                 i -= 1
         elif state == "rows":
-            if b == b"\xfe" and len(p) < 9:
+            # OK-as-EOF carries the affected-row count as a length-encoded integer: 9 bytes and more from 251 rows on
+            if b == b"\xfe" and (dep or len(p) < 9):
                 st = (parse_ok(p) if dep else parse_eof(p))["status"]
                 out.append("t%d" % (st & 0xC0))
                 state = "done"
